@@ -33,7 +33,7 @@ type c09HeaderlessSigner struct {
 }
 
 func (s c09HeaderlessSigner) Sign(data []byte) ([]byte, error) { return s.inner.Sign(data) }
-func (s c09HeaderlessSigner) Headers() jws.Headers            { return nil }
+func (s c09HeaderlessSigner) Headers() jws.Headers             { return nil }
 
 // verifyNoPanic calls VerifyJWS and converts a panic into a violation.
 func verifyNoPanic(r *hx.Run, caseID, compact string, jwk *jws.JWK) (ok bool, err error) {
